@@ -552,6 +552,37 @@ def r07_5(ctx):
     rules_text.r16_4(ctx)
 
 
+@rule("C07", "R07.6", floor=3)
+def r07_6(ctx):
+    """clean parses the sources exactly as build does: which lines start / continue / end a directive must not depend on the Mode
+    (a continuation line re-read as a fresh line in clean could be taken for a `temp` directive and its target deleted)"""
+    lib = ctx.lib
+    mo = modes(ctx)
+    for role_name in ("iterate_directive", "get_next_line"):
+        b = body(ctx, role_name)
+        if not b:
+            continue
+        sites = []
+        for bb, t in b.calls():
+            if any(n in (ROLE["detect_from"], ROLE["add_line"], ROLE["next_line"]) for n in C.callee_names(t)):
+                sites.append((bb, C.callee_name(t).rsplit("::", 1)[-1]))
+        for bb, si, st in b.stmts():
+            if st["k"] == "assign" and st["lhs"]["p"] and st["lhs"]["p"][-1].get("name") in ("cur_directive", "execute_tail_line"):
+                sites.append((bb, "store " + st["lhs"]["p"][-1]["name"]))
+        for bb, t in b.calls():
+            if t["dest"]["p"] and t["dest"]["p"][-1].get("name") in ("cur_directive", "execute_tail_line"):
+                sites.append((bb, "store " + t["dest"]["p"][-1]["name"]))
+        if not sites:
+            ctx.anchor_missing("directive detection / continuation sites in %s" % b.name)
+        for bb, what in sites:
+            lm = mo.local_modes(b, bb)
+            if lm >= mo.all:
+                ctx.ok("%s|%s is mode-independent" % (role_name, what), site=ctx.site(b, bb))
+            else:
+                ctx.violation([b.name, "mode-dependent-parse", what], "directive parsing depends on the mode: `%s` in %s happens only in mode(s) %s, so "
+                              "clean and build can disagree about which lines belong to a directive" % (what, role_name, sorted(lm)), site=ctx.site(b, bb))
+
+
 # =====================================================================================  C08
 prop("C08", "Builds are a function of the sources only (hermetic, idempotent)",
      decided=["R08.1 every write-capable open of an output or temp path is create-or-truncate (File::create / fs::write / an OpenOptions chain with write(true)+truncate(true) and no append)",
